@@ -554,14 +554,14 @@ func cmdReplayReader(args []string) int {
 	jobs := make(chan job, 64)
 	var mu sync.Mutex
 	var wg sync.WaitGroup
-	var nviol int32
+	var nviol, nagain int32
 	var again []job
 	for w := 0; w < par; w++ {
 		wg.Add(1)
 		go func() {
 			defer wg.Done()
 			for j := range jobs {
-				if atomic.LoadInt32(&nviol) >= 12 {
+				if atomic.LoadInt32(&nviol) >= 12 || atomic.LoadInt32(&nagain) >= 6 {
 					// enough witnesses: the remaining scenarios would only cost time (hangs are bounded by timeouts)
 					continue
 				}
@@ -572,6 +572,8 @@ func cmdReplayReader(args []string) int {
 					mu.Lock()
 					again = append(again, j)
 					mu.Unlock()
+					// (a call that never returns keeps spinning in its abandoned goroutines: a handful of candidates is enough)
+					atomic.AddInt32(&nagain, 1)
 					continue
 				}
 				if r.Status == "violation" {
